@@ -35,6 +35,9 @@ def _cfgs(prop, tier):
 
 PROPS = set(NAMES.keys())
 
+# function-level drivers that decide a part of a closed-loop property (lib/fn/<name>.json)
+EXTRA_FN = {"C01": ["arith"], "C07": ["arith"]}
+
 ASSUMPTIONS = [
     "bounded: only the configurations, plans, replica counts, action alphabets and budgets listed in coverage.configs were explored",
     "the simulated API server (harness/sim/store.go) and the simulated native workload controllers (harness/sim/*env*.go) are trusted and hand-written",
@@ -130,6 +133,16 @@ def check(prop, tier):
             t = run.trans[min(len(run.trans) - 1, 50)]
             samples.append({"cfg": cfgname, "path": run.path_to(t["pre"]), "act": t["act"], "writes": t["writes"]})
     model = closed_model_check(prop, tier)
+    fn_cov = []
+    import fnlevel
+    for dn in EXTRA_FN.get(prop, []):
+        d = fnlevel.descriptors()[dn]
+        v, k, c = fnlevel.run_descriptor(d, tier, prop)
+        for payload in v:
+            violations.append({"property": prop, "predicate": payload["predicate"], "cfg": "fn:" + dn, "path": ["case %d" % payload["case"]["id"]],
+                               "signature": payload["signature"], "case": payload["case"]})
+        known += k
+        fn_cov.append({x: c[x] for x in c if x != "samples"})
     seen_kf = {}
     for kf, payload in known:
         seen_kf.setdefault(kf["id"], [kf, 0])[1] += 1
@@ -152,7 +165,7 @@ def check(prop, tier):
                 "non-trivial = the antecedent of one of this property's predicates held on it (counted by TLC, per predicate in predicate_hits)",
         "predicate_hits": counts, "predicates_exercised": exercised, "configs": cfg_cov,
         "drift": drift, "unmodelled": unmodelled, "aliasing": aliasing, "real_panics": panics,
-        "model_check": model, "known_findings_reported": [k["id"] for k, _ in known],
+        "model_check": model, "function_level": fn_cov, "known_findings_reported": [k["id"] for k, _ in known],
         "exhaustive": all(not c["truncated"] for c in cfg_cov),
     }
     vlib.write_evidence(prop, tier, "model_checking", cov, time.time() - t0, len(violations), ASSUMPTIONS)
